@@ -544,13 +544,19 @@ struct _to_string_ctx {
     bool buffer_full;
 };
 
+/* Write position, or NULL once the text no longer fits (snprintf is then called with size 0). */
+static char *_to_string_pos(struct _to_string_ctx *ctx)
+{
+    return (ctx->buffer_used < ctx->buffer_size) ? &ctx->buffer[ctx->buffer_used] : NULL;
+}
+
 static void _binson_to_string_cb(binson_parser *parser, uint16_t next_state, void *context)
 {
 
     binson_state *state = parser->current_state;
     struct _to_string_ctx *ctx = (struct _to_string_ctx *) context;
     uint8_t *pstate = &ctx->pstate;
-    char *pbuf = &ctx->buffer[ctx->buffer_used];
+    char *pbuf = _to_string_pos(ctx);
 
     size_t available = 0;
     if (ctx->buffer_used < ctx->buffer_size) {
@@ -565,7 +571,7 @@ static void _binson_to_string_cb(binson_parser *parser, uint16_t next_state, voi
             ctx->buffer_full = true;
         }
         ctx->buffer_used += ret;
-        pbuf = &ctx->buffer[ctx->buffer_used];
+        pbuf = _to_string_pos(ctx);
         if (available > 0) {
             available--;
         }
@@ -608,7 +614,7 @@ static void _binson_to_string_cb(binson_parser *parser, uint16_t next_state, voi
                 {
                     available--;
                 }
-                pbuf = &ctx->buffer[ctx->buffer_used];
+                pbuf = _to_string_pos(ctx);
             }
             *pstate = 0x02;
             ret = snprintf(pbuf, available, "\"%*.*s\":", 0, (int) state->current_name.bsize, (const char* ) parser->current_state->current_name.bptr);
@@ -635,7 +641,7 @@ static void _binson_to_string_cb(binson_parser *parser, uint16_t next_state, voi
             if (available >= ret) {
                 available -= ret;
             }
-            pbuf = &ctx->buffer[ctx->buffer_used];
+            pbuf = _to_string_pos(ctx);
             if ((state->current_value.bytes_value.bsize > ((SIZE_MAX/2)-2)) ||
                 !_check_boundary(ctx->buffer_used, (state->current_value.bytes_value.bsize*2) + 2, ctx->buffer_size)) {
                 ctx->buffer_full = true;
@@ -644,9 +650,9 @@ static void _binson_to_string_cb(binson_parser *parser, uint16_t next_state, voi
             ret = 0;
             size_t i;
             for (i = 0; i < state->current_value.bytes_value.bsize; i++) {
-                ret += snprintf(&pbuf[ret], available, "%02x", state->current_value.bytes_value.bptr[i]);
+                ret += snprintf((available > 0) ? &pbuf[ret] : NULL, available, "%02x", state->current_value.bytes_value.bptr[i]);
             }
-            ret += snprintf(&pbuf[ret], available, "\"");
+            ret += snprintf((available > 0) ? &pbuf[ret] : NULL, available, "\"");
             break;
 
     }
